@@ -48,6 +48,8 @@ class ExecTimer:
         return False
 
 
+#: configuration switch of C02: run the cyclic garbage collector after every activation (default: it never runs)
+GC_AT_BOUNDARIES = [False]
 #: stack of active execution contexts (nested usim.run share the innermost context)
 CURRENT = []
 #: scheduling-point callback used by the controlled thread scheduler
@@ -223,6 +225,9 @@ class Ctx:
 
     def post_activation(self, loop, target, signal):
         k = self.nact
+        if GC_AT_BOUNDARIES[0]:
+            import gc
+            gc.collect()         # the most eager collector there can be: cyclic garbage dies at the next activation boundary
         if self.loops and loop is not self.loops[0]:
             # an activation of a nested simulation (usim.run called from inside an activity): no boundary of the
             # scenario's own simulation - signalling its tasks from in here would be a misuse of the API
